@@ -21,4 +21,9 @@ def toLetters (e : Env) : Letters where
   tlsImage := e.tlsStart
   blockTp := e.tlsStart - e.tpStart
 
+theorem valueWithAddend_eq (e : Env) (h : e.mergedString = Option.none) :
+    valueWithAddend e = (toLetters e).S + (toLetters e).A := by
+  unfold valueWithAddend toLetters
+  by_cases hi : e.isIfunc <;> by_cases hs : e.S = 0 <;> simp [hi, hs, h]
+
 end Wild.C01
